@@ -68,3 +68,9 @@ package interceptor
 //@ # safety only (property C02): parsing the RTCP bytes of a packet never indexes outside them
 //@ func (Attributes).GetRTCPPackets
 //@   modifies *
+//@
+//@ # errors.Is on the result of Close finds every member error, wherever it sits among nested results
+//@ func (multiError).Is
+//@   modifies nothing
+//@   ensures finds_member: (exists k int :: 0 <= k && k < len(me) && me[k] == err) ==> result
+//@   loop 1 invariant none_before: forall k int :: 0 <= k && k <= rangeindex ==> me[k] != err
